@@ -31,6 +31,9 @@ C["C04"] = dict(
 C["C05"] = dict(
   text="Lean 4 theorems over a typed metainfo model (createMetainfo = Create::run's assembly; toBVal = bendy's serde struct encoding via sorted insertion): for every option record, clock value and hash result the top-level and info dictionaries have strictly ascending keys (canonical, unique), and one lookup theorem per option states the key holds exactly the requested value and is absent when not given (announce, tiers in order, comment, created by, creation date = the clock value, encoding = UTF-8, nodes as [host, port], name, piece length, pieces, private = 1 iff requested, source, update-url); output is a function of options+hash result and independent of the clock under --no-creation-date. Correspondence: random option subsets on the CLI; written file compared byte for byte with the model's encoding, read back key by key by the harness's own strict decoder, re-created twice in opposite entry orders.",
   note="Trusted: Lean kernel; serde/bendy struct serialisation modelled and tied by byte-for-byte comparison; URL normalisation assumed identity on generated forms; decode completeness partial.")
+C["C06"] = dict(
+  text="Lean 4 theorems over a model of Walker/SortSpec/FilePath ordering, for every tree, flag set, glob list (matching function arbitrary) and sort specification: the listed files are exactly (as a multiset) the enumerated regular files passing the glob and junk filters; the list is sorted by the --sort-by keys in order with ties broken by ascending component-wise path (transitivity/totality via lawful comparator instances); the result is identical for any permutation of the enumeration (order independence); last matching glob decides, unmatched paths take the opposite polarity of the first glob; without --include-hidden no listed path has a dot-component below the root; symlinks contribute nothing unless followed; a symlink root is refused iff not following; the junk list extracted from the source is the documented one. Correspondence: sandbox trees built in shuffled creation order, all 8 flag combinations, globs and sort specs; three-way agreement impl / model / harness's own rules.",
+  note="Trusted: Lean kernel; ignore/globset modelled on a sub-language; sampled differential check.")
 
 
 def main():
